@@ -8,6 +8,7 @@ the whole contract once per feasible decision sequence.
 """
 from fractions import Fraction
 import numbers
+import os
 
 import numpy as np
 import z3
@@ -245,6 +246,7 @@ def arith(op, a, b):
     if op == '-':
         if bn and b == 0: return a
         if an and a == 0: return mk(-lift(b))
+        if not an and not bn and a.t.eq(b.t): return 0
         return mk(lift(a) - lift(b))
     if op == '*':
         if an:
@@ -417,6 +419,22 @@ def is_sym(x):
     return False
 
 
+def checked(solver, seconds):
+    """solver.check() with a hard wall-clock limit (z3's own timeout is not
+    always honoured inside nlsat): a timer thread interrupts the context."""
+    import threading
+    t = threading.Timer(seconds + 0.5, solver.ctx.interrupt)
+    t.daemon = True
+    t.start()
+    try:
+        r = solver.check()
+    except z3.Z3Exception:
+        r = z3.unknown
+    finally:
+        t.cancel()
+    return r
+
+
 # -------------------------------------------------------------------- engine
 class Engine(object):
     """Per-process singleton holding the current path."""
@@ -428,6 +446,7 @@ class Engine(object):
     def reset_all(self):
         self.hyps = []            # z3 bools: requires + dependency axioms
         self.hyp_notes = []       # readable provenance of each hypothesis
+        self.hyp_bulk = []
         self.path = []            # (z3 bool taken as true, kind)
         self.prefix = []          # decisions to replay: bool or ('int', v)
         self.pending = []         # alternative prefixes discovered on this run
@@ -438,7 +457,9 @@ class Engine(object):
         self.denominators = {}
         self.used_stubs = set()
         self.solver_time = 0.0
-        self.fork_timeout_ms = 3000
+        self.fork_timeout_ms = 2000
+        self.use_abstraction = True
+        self._abs_cache = {}
         self.int_cap = 12
         self.max_decisions = 400
         self._solver = None
@@ -453,7 +474,11 @@ class Engine(object):
         return SReal(z3.Real(name))
 
     # ............................................................. hypotheses
-    def assume(self, cond, note=''):
+    def assume(self, cond, note='', bulk=False):
+        """bulk=True: the hypothesis (typically the defining equations of a
+        dependency contract) is used when discharging obligations but left out
+        of the fork-feasibility context (sound: feasibility is only
+        over-approximated)."""
         if cond is True or (isinstance(cond, (bool, np.bool_)) and cond):
             return
         if cond is False or (isinstance(cond, (bool, np.bool_)) and not cond):
@@ -461,7 +486,8 @@ class Engine(object):
         b = liftb(cond)
         self.hyps.append(b)
         self.hyp_notes.append(note)
-        if self._solver is not None:
+        self.hyp_bulk.append(bulk)
+        if self._solver is not None and not bulk:
             self._solver.add(b)
 
     def context(self):
@@ -472,23 +498,93 @@ class Engine(object):
         if self._solver is None:
             s = z3.Solver()
             s.set('timeout', self.fork_timeout_ms)
-            for h in self.hyps:
-                s.add(h)
+            for h, bulk in zip(self.hyps, self.hyp_bulk):
+                if not bulk:
+                    s.add(h)
             for c, _ in self.path:
                 s.add(c)
             self._solver = s
         return self._solver
 
     def _feasible(self, cond):
+        """sat / unsat / unknown of (context and cond).  Sound
+        over-approximation: unsat is only reported when a *subset* of the
+        context is unsat together with cond (tried in growing relevance
+        order), anything else counts as feasible."""
         import time
-        s = self.solver()
+        from .util import forked, TIMEOUT
         t0 = time.time()
-        s.push()
-        s.add(cond)
-        r = s.check()
-        s.pop()
+        ctxs = [h for h, bulk in zip(self.hyps, self.hyp_bulk) if not bulk] + [c for c, _ in self.path]
+        # stage A: sign abstraction over irreducible factors (fast, decides
+        # orientation-type geometric predicates)
+        if self.use_abstraction:
+            ac = _abstract(cond)
+            if ac is not None:
+                ahs = []
+                for h in ctxs:
+                    i = h.get_id()
+                    a = self._abs_cache.get(i)
+                    if a is None:
+                        a = (h, _abstract(h))
+                        self._abs_cache[i] = a
+                    if a[1] is not None:
+                        ahs.append(a[1])
+
+                def ajob():
+                    s = z3.Solver()
+                    for h in ahs:
+                        s.add(h)
+                    s.add(ac)
+                    return str(s.check())
+                r = forked(ajob, 2.0)
+                if os.environ.get('VERIF_TRACE_FORK'):
+                    print('  feas stage A hyps=%d -> %s %.2fs %s' % (len(ahs), r if r is not TIMEOUT else 'TIMEOUT', time.time() - t0, str(ac)[:100].replace('\n', ' ')), flush=True)
+                if r == 'unsat':
+                    self.solver_time += time.time() - t0
+                    return z3.unsat
+        stages = []
+        if len(ctxs) > 12:
+            seen = _atoms(cond)
+            chosen = []
+            rest = list(ctxs)
+            for hop in range(2):
+                new_atoms = set()
+                keep = []
+                for h in rest:
+                    a = _atoms(h)
+                    if a & seen:
+                        chosen.append(h)
+                        new_atoms |= a
+                    else:
+                        keep.append(h)
+                rest = keep
+                seen |= new_atoms
+                if chosen and (not stages or len(chosen) > len(stages[-1])):
+                    stages.append(list(chosen))
+            if not stages or len(stages[-1]) < len(ctxs):
+                stages.append(ctxs)
+        else:
+            stages.append(ctxs)
+        res = z3.unknown
+        for k, hs in enumerate(stages):
+            last = k == len(stages) - 1
+
+            def job():
+                s = z3.Solver()
+                for h in hs:
+                    s.add(h)
+                s.add(cond)
+                return str(s.check())
+            r = forked(job, (self.fork_timeout_ms / 1000.0) if last else min(1.0, self.fork_timeout_ms / 1000.0))
+            if os.environ.get('VERIF_TRACE_FORK'):
+                print('  feas stage %d/%d hyps=%d -> %s %.2fs  %s' % (k, len(stages), len(hs), r if r is not TIMEOUT else 'TIMEOUT', time.time() - t0, str(cond)[:80].replace('\n', ' ')), flush=True)
+            if r == 'unsat':
+                res = z3.unsat
+                break
+            if last:
+                res = {'sat': z3.sat}.get(r, z3.unknown)
         self.solver_time += time.time() - t0
-        return r  # sat / unsat / unknown
+        return res
 
     def _take(self, cond, kind, outcome):
         self.path.append((cond, kind))
@@ -498,6 +594,14 @@ class Engine(object):
 
     def decide(self, b):
         b = z3.simplify(b)
+        if z3.is_true(b):
+            return True
+        if z3.is_false(b):
+            return False
+        cv = _concrete_cmp(b)
+        if cv is not None:
+            return cv
+        b = _polynomialise(b)
         if z3.is_true(b):
             return True
         if z3.is_false(b):
@@ -512,8 +616,10 @@ class Engine(object):
                 raise EngineGap('non-deterministic re-execution (decision kind changed)')
             self._take(b if out else nb, 'branch', out)
             return out
+        # the context is satisfiable (path invariant), so if one side is
+        # unsat the other one is forced and need not be checked
         rt = self._feasible(b)
-        rf = self._feasible(nb)
+        rf = self._feasible(nb) if rt != z3.unsat else z3.sat
         can_t = rt != z3.unsat
         can_f = rf != z3.unsat
         if can_t and can_f:
@@ -546,24 +652,29 @@ class Engine(object):
                 raise EngineGap('non-deterministic re-execution (expected int decision)')
             self._take(tr == out[1], 'int', out)
             return out[1]
+        from .util import forked, TIMEOUT
         s = self.solver()
-        vals = []
-        s.push()
-        s.add(k == tr)
-        while True:
-            r = s.check()
-            if r == z3.unknown:
-                s.pop()
-                raise EngineGap('solver unknown while enumerating integer values of %s' % x)
-            if r == z3.unsat:
-                break
-            v = s.model().eval(k, model_completion=True).as_long()
-            vals.append(v)
-            if len(vals) > self.int_cap:
-                s.pop()
-                raise EngineGap('integer concretisation of %r exceeds cap %d (add a bound to the contract)' % (x, self.int_cap))
-            s.add(k != v)
-        s.pop()
+        cap = self.int_cap
+
+        def job():
+            vals = []
+            s.add(k == tr)
+            while True:
+                r = s.check()
+                if r == z3.unknown:
+                    return 'unknown'
+                if r == z3.unsat:
+                    return vals
+                v = s.model().eval(k, model_completion=True).as_long()
+                vals.append(v)
+                if len(vals) > cap:
+                    return 'toomany'
+                s.add(k != v)
+        vals = forked(job, 30.0)
+        if vals is TIMEOUT or vals == 'unknown':
+            raise EngineGap('solver unknown while enumerating integer values of %s' % x)
+        if vals == 'toomany':
+            raise EngineGap('integer concretisation of %r exceeds cap %d (add a bound to the contract)' % (x, self.int_cap))
         if not vals:
             raise Infeasible('no integer value')
         vals.sort()
@@ -601,8 +712,20 @@ class Engine(object):
 
     # .............................................. transcendental contracts
     def fn_sqrt(self, x):
+        if isinstance(x, SReal):
+            from . import poly
+            cv = poly.const_value(x.t)
+            if cv is not None:
+                x = cv
         if not isinstance(x, SReal):
-            raise EngineGap('sqrt of non-symbolic through symbolic path')
+            import math
+            fr = to_fraction(x)
+            if fr < 0:
+                return float('nan')
+            rt = Fraction(math.isqrt(fr.numerator), math.isqrt(fr.denominator))
+            if rt * rt == fr:
+                return int(rt) if rt.denominator == 1 else rt
+            return math.sqrt(fr)
         r = self.app('sqrt', x)
         self.assume(mkbool(r.t >= 0), 'sqrt>=0')
         self.assume(mkbool(r.t * r.t == x.t), 'sqrt^2')
@@ -647,6 +770,163 @@ class Engine(object):
         self.assume(mkbool(z3.And(r.t > -pi.t, r.t <= pi.t)), 'arctan2 range')
         self.assume(mkbool(z3.And(rad.t * c.t == lift(x), rad.t * s.t == lift(y))), 'arctan2 polar')
         return r
+
+
+def _has_div(t):
+    stack, seen = [t], set()
+    while stack:
+        u = stack.pop()
+        i = u.get_id()
+        if i in seen:
+            continue
+        seen.add(i)
+        if z3.is_app(u):
+            if u.decl().kind() == z3.Z3_OP_DIV:
+                return True
+            if u.decl().kind() == z3.Z3_OP_UNINTERPRETED:
+                continue
+            stack.extend(u.children())
+    return False
+
+
+def _polynomialise(b):
+    """recursive over the boolean structure; leaves are comparisons."""
+    if z3.is_and(b) or z3.is_or(b):
+        parts = [_polynomialise(c) for c in b.children()]
+        return z3.simplify(z3.And(*parts) if z3.is_and(b) else z3.Or(*parts))
+    if z3.is_not(b) and (z3.is_and(b.arg(0)) or z3.is_or(b.arg(0)) or z3.is_not(b.arg(0))):
+        return z3.simplify(z3.Not(_polynomialise(b.arg(0))))
+    cv = _concrete_cmp(b)
+    if cv is not None:
+        return z3.BoolVal(cv)
+    return _polynomialise_leaf(b)
+
+
+def _polynomialise_leaf(b):
+    """N/D cmp 0  ->  N*D cmp 0  (denominators are non-zero wherever the real
+    code computes finite values); keeps the solvers inside polynomial
+    arithmetic, which nlsat decides far better than division."""
+    from . import poly
+    neg = False
+    c = b
+    while z3.is_not(c):
+        c = c.arg(0)
+        neg = not neg
+    if not z3.is_app(c) or c.num_args() != 2 or c.arg(0).sort().kind() != z3.Z3_REAL_SORT:
+        return b
+    k = c.decl().kind()
+    if k not in (z3.Z3_OP_LE, z3.Z3_OP_LT, z3.Z3_OP_GE, z3.Z3_OP_GT, z3.Z3_OP_EQ, z3.Z3_OP_DISTINCT):
+        return b
+    if not (_has_div(c.arg(0)) or _has_div(c.arg(1))):
+        return b
+    try:
+        n, d = poly.ratfun(c.arg(0) - c.arg(1))
+    except Exception:
+        return b
+    if len(n) * len(d) > 4000:
+        return b
+    if d != poly.ONE and len(n) < 400 and len(d) < 400:
+        try:
+            n, d = poly.cancel(n, d)
+        except Exception:
+            pass
+    if k in (z3.Z3_OP_EQ, z3.Z3_OP_DISTINCT):
+        t = poly.to_z3(n)
+    else:
+        t = poly.to_z3(poly.p_mul(n, d)) if d != poly.ONE else poly.to_z3(n)
+    zero = zconst(0)
+    r = {z3.Z3_OP_LE: lambda: t <= zero, z3.Z3_OP_LT: lambda: t < zero, z3.Z3_OP_GE: lambda: t >= zero,
+         z3.Z3_OP_GT: lambda: t > zero, z3.Z3_OP_EQ: lambda: t == zero, z3.Z3_OP_DISTINCT: lambda: t != zero}[k]()
+    return z3.Not(r) if neg else r
+
+
+def _abstract(b):
+    """sign abstraction of a boolean combination of polynomial comparisons
+    over irreducible-factor variables; None where not applicable (dropping a
+    hypothesis only over-approximates feasibility)."""
+    from . import poly
+    if z3.is_not(b):
+        a = _abstract(b.arg(0))
+        return None if a is None else z3.Not(a)
+    if z3.is_and(b):
+        parts = [x for x in (_abstract(c) for c in b.children()) if x is not None]
+        return z3.And(*parts) if parts else None
+    if z3.is_or(b):
+        parts = [_abstract(c) for c in b.children()]
+        if any(x is None for x in parts):
+            return None
+        return z3.Or(*parts)
+    if not z3.is_app(b) or b.num_args() != 2 or b.arg(0).sort().kind() != z3.Z3_REAL_SORT:
+        return None
+    k = b.decl().kind()
+    if k not in (z3.Z3_OP_LE, z3.Z3_OP_LT, z3.Z3_OP_GE, z3.Z3_OP_GT, z3.Z3_OP_EQ, z3.Z3_OP_DISTINCT):
+        return None
+    try:
+        n, d = poly.ratfun(b.arg(0) - b.arg(1))
+        if len(n) > 600 or len(d) > 600:
+            return None
+        if d != poly.ONE:
+            n, d = poly.cancel(n, d)
+        tn = poly.abstract_sign_term(n)
+        t = tn if (d == poly.ONE or k in (z3.Z3_OP_EQ, z3.Z3_OP_DISTINCT)) else tn * poly.abstract_sign_term(d)
+    except Exception:
+        return None
+    zero = zconst(0)
+    return {z3.Z3_OP_LE: lambda: t <= zero, z3.Z3_OP_LT: lambda: t < zero, z3.Z3_OP_GE: lambda: t >= zero,
+            z3.Z3_OP_GT: lambda: t > zero, z3.Z3_OP_EQ: lambda: t == zero, z3.Z3_OP_DISTINCT: lambda: t != zero}[k]()
+
+
+_ATOM_CACHE = {}
+
+
+def _atoms(t):
+    """ids of the uninterpreted constants / applications occurring in t."""
+    i = t.get_id()
+    r = _ATOM_CACHE.get(i)
+    if r is not None and r[0].eq(t):
+        return r[1]
+    out = set()
+    stack = [t]
+    seen = set()
+    while stack:
+        u = stack.pop()
+        ui = u.get_id()
+        if ui in seen:
+            continue
+        seen.add(ui)
+        if z3.is_app(u):
+            if u.decl().kind() == z3.Z3_OP_UNINTERPRETED:
+                out.add(ui)
+            stack.extend(u.children())
+    _ATOM_CACHE[i] = (t, out)
+    if len(_ATOM_CACHE) > 20000:
+        _ATOM_CACHE.clear()
+    return out
+
+
+def _concrete_cmp(b):
+    """Decide a comparison whose two sides differ by a constant rational
+    function (exact normal form), e.g. barycentric coordinates of a vertex."""
+    from . import poly
+    neg = False
+    while z3.is_not(b):
+        b = b.arg(0)
+        neg = not neg
+    if not z3.is_app(b) or b.num_args() != 2:
+        return None
+    k = b.decl().kind()
+    ops = {z3.Z3_OP_LE: lambda c: c <= 0, z3.Z3_OP_LT: lambda c: c < 0, z3.Z3_OP_GE: lambda c: c >= 0,
+           z3.Z3_OP_GT: lambda c: c > 0, z3.Z3_OP_EQ: lambda c: c == 0, z3.Z3_OP_DISTINCT: lambda c: c != 0}
+    if k not in ops or b.arg(0).sort().kind() != z3.Z3_REAL_SORT:
+        return None
+    try:
+        c = poly.const_value(b.arg(0) - b.arg(1))
+    except Exception:
+        return None
+    if c is None:
+        return None
+    r = ops[k](c)
+    return (not r) if neg else r
 
 
 ENG = Engine()
